@@ -3,8 +3,10 @@ import json, os, re, shutil, subprocess, sys, time, hashlib
 
 VERIF = os.path.dirname(os.path.dirname(os.path.abspath(__file__)))
 SPEC = os.path.join(VERIF, "spec")
-HARNESS = os.path.join(VERIF, "harness")
-WORK = os.path.join(VERIF, ".work")
+# overridable so that several evaluations (each against its own checkout of the library) can run side by side
+HARNESS = os.environ.get("BPPV_HARNESS", os.path.join(VERIF, "harness"))
+WORK = os.environ.get("BPPV_WORK", os.path.join(VERIF, ".work"))
+OUT = os.environ.get("BPPV_OUT", VERIF)
 TLA_JAR = "/opt/veriftools/tla/tla2tools.jar"
 COMMUNITY = "/opt/veriftools/tla/CommunityModules-deps.jar"
 
